@@ -16,8 +16,10 @@ EXPLAIN = ('ITS (structural, necessary clauses): (R1) interchain_transfer: every
            'calls occur only at the take (interchain_transfer), the give (execute) and the initial-supply mint '
            '(deploy_interchain_token); custody outflow (transfer from self) only in execute; (R7) the clauses of the statement that live in the called '
            'contracts are evaluated too: gas service pay_gas (C14), gateway call_contract (C13), token burn/mint/transfer exactness (C12.R1/R2).')
-NOT_DECIDED = ('the conservation equations over histories (custody = locked - released, supply accounting) and anything '
-               'inside the token contracts (T8); byte-exactness of the ABI encoding (T7).')
+NOT_DECIDED = ('the conservation equations over histories (custody = locked - released, supply accounting) are decided only through their inductive '
+               'step (R1/R2/R5/R6: one take or give per successful call, of exactly the announced / decoded amount, on the registered token, and no other '
+               'custody movement anywhere); the induction itself, direct third-party transfers, the inside of foreign token contracts (T8) and '
+               'byte-exactness of the ABI encoding (T7) are not decided.')
 ASSUME = ['T1', 'T2', 'T3', 'T6', 'T7', 'T8']
 MOVERS = ('transfer', 'transfer_from', 'burn', 'burn_from', 'mint', 'mint_from', 'clawback')
 
